@@ -33,11 +33,71 @@ CC = "repetition_code.circuit_components"
 
 
 def check(model: Model, rep: Report, tier: str):
-    t1(model, rep)
-    t2(model, rep)
+    with rep.isolated():
+        t1(model, rep)
+    with rep.isolated():
+        t2(model, rep)
+    with rep.isolated():
+        t4(model, rep)
     from .c03 import h1
     cg = CallGraph(model)
-    share_rule(rep, model, lambda m, r: h1(m, r, cg, Effects(m, cg)), "C10.T3", "the schedule under a changed duration configuration is recomputed: every writer of a duration setting invalidates the memoised start times (= C03.H1)")
+    with rep.isolated():
+        share_rule(rep, model, lambda m, r: h1(m, r, cg, Effects(m, cg)), "C10.T3", "the schedule under a changed duration configuration is recomputed: every writer of a duration setting invalidates the memoised start times (= C03.H1)")
+
+
+# the duration setting each operation kind lasts for (specification table; a class missing here is reported in the evidence only)
+DURATION_KIND = {
+    "Reset": "RESET", "Identity": "MICROWAVE", "Hadamard": "MICROWAVE", "Rx180": "MICROWAVE", "Rx90": "MICROWAVE", "Rxm90": "MICROWAVE", "Ry180": "MICROWAVE",
+    "Ry90": "MICROWAVE", "Rym90": "MICROWAVE", "Rx180ef": "MICROWAVE", "VirtualPhase": "MICROWAVE", "Rphi90": "MICROWAVE", "VirtualPark": "FLUX", "CPhase": "FLUX",
+    "DispersiveMeasure": "READOUT",
+}
+KIND_CHANNEL = {"MICROWAVE": "MICROWAVE", "FLUX": "FLUX", "READOUT": "READOUT", "RESET": "ALL"}
+
+
+def t4(model: Model, rep: Report):
+    """T4: every operation kind lasts for the duration setting of its own kind -- and that kind is one of the channels it books."""
+    rep.rule("C10.T4", "every operation class with a global duration reads the setting of its own kind (reset / microwave / flux / readout, specification table) and that kind "
+                       "is a channel the operation occupies (sibling agreement between duration_strategy and channel_identifiers): an operation that books the flux channel for "
+                       "the microwave duration lets its closing barrier start while the longer neighbour is still running")
+    from .c05 import copy_families
+    n = 0
+    for iface, classes in copy_families(model):
+        if iface != "ICircuitOperation":
+            continue
+        for C in classes:
+            fi = C.find_field("duration_strategy")
+            if fi is None or fi.default is None:
+                continue
+            ev = Evaluator(model)
+            try:
+                v = ev.expr(fi.default, Frame(None, fi.owner.module, {}, fi.owner, 0))
+            except Unsupported as e:
+                raise AnalysisError(f"{C.name}.duration_strategy default not evaluated: {e}")
+            while v[0] == "var" and len(v) == 4:
+                v = v[3]
+            if not (v[0] == "new" and v[1] == "GlobalDurationStrategy"):
+                continue
+            k = dict(v[2]).get("key")
+            key = k[2] if k is not None and k[0] == "enum" else None
+            n += 1
+            f = C.properties.get("channel_identifiers") or C.resolve("channel_identifiers")
+            chans = set()
+            if f is not None:
+                try:
+                    cv = Evaluator(model, inline_methods=False).value_of(f, self_cls=C)
+                    chans = {x[2] for x in subterms(cv, lambda y: y[0] == "enum" and y[1] == "QubitChannel")}
+                except Unsupported:
+                    chans = set()
+            want = DURATION_KIND.get(C.name)
+            loc = f"{fi.owner.module.relpath}:{getattr(fi.node, 'lineno', 0)}" if hasattr(fi, "node") else C.loc
+            if want is None:
+                rep.info(f"C10.T4: operation class {C.name} (duration kind {key}) is not in the specification table")
+            else:
+                rep.check(key == want, "C10.T4", f"{C.name}[duration kind]", C.loc, found=key, required=want, what=f"{C.name} lasts for the {key} setting instead of the {want} setting", detail="kind")
+            if chans:
+                rep.check(KIND_CHANNEL.get(key) in chans, "C10.T4", f"{C.name}[duration kind books its channel]", C.loc, found=f"duration {key}, channels {sorted(chans)}", required=f"channel {KIND_CHANNEL.get(key)} among the occupied channels",
+                          what=f"{C.name} occupies {sorted(chans)} but lasts for the {key} setting", detail="kind-channel")
+    rep.floor("operation classes with a global duration kind", n, 15)
 
 
 def _global_key(model: Model, cls_name: str) -> Optional[str]:
